@@ -305,6 +305,8 @@ FIXTURES = {
     "gradient": (6, _shape(after=lambda sp: sp.fill.gradient())),
     "patterned": (6, _shape(after=lambda sp: sp.fill.patterned())),
     "bar_chart": (6, _chart(CT.BAR_CLUSTERED)),
+    "bar_stacked": (6, _chart(CT.COLUMN_STACKED)),
+    "bar_stacked_100": (6, _chart(CT.BAR_STACKED_100)),
     "bar_labels": (6, _line_chart_labels),
     "line_chart": (6, _chart(CT.LINE_MARKERS)),
     "bubble_chart": (6, _chart(CT.BUBBLE)),
@@ -497,6 +499,9 @@ ROWS = [
     R("_Paragraph.level", "textbox", PARA, ints(0, 8, True, (4,)), group="para", corpus="paragraph", cls="small-int"),
     R("BarPlot.gap_width", "bar_chart", PLOT, ints(0, 500, False, (150, 100, 151)), group="plot", corpus="barplot", cls="small-int"),
     R("BarPlot.overlap", "bar_chart", PLOT, ints(-100, 100, True, (0, 1, -1, 50)), group="plot", corpus="barplot", cls="small-int"),
+    R("BarPlot.overlap@stacked", "bar_stacked", PLOT, ints(-100, 100, True, (0, 1, -1, 50, 100)), group="plot-stacked", cls="small-int"),
+    R("BarPlot.gap_width@stacked", "bar_stacked", PLOT, ints(0, 500, False, (150, 100, 0)), group="plot-stacked", cls="small-int"),
+    R("BarPlot.overlap@stacked100", "bar_stacked_100", PLOT, ints(-100, 100, True, (0, 100, -100)), group="plot-stacked100", cls="small-int"),
     R("BubblePlot.bubble_scale", "bubble_chart", PLOT, ints(0, 300, True, (100, 99, 101), none=True), none=100, group="plot", corpus="bubbleplot", cls="small-int"),
     R("Marker.size", "line_chart", SER + ".marker", ints(2, 72, True, (9, 7), none=True), none=None, group="marker", corpus="marker", cls="small-int"),
     R("Chart.chart_style", "bar_chart", CH, ints(1, 48, True, (2, 10), none=True), none=None, group="chart", corpus="chart", cls="small-int"),
